@@ -38,7 +38,6 @@ import (
 	"bytes"
 	"fmt"
 	"go/types"
-	"unicode/utf8"
 	"unsafe"
 
 	"golang.org/x/tools/go/ssa"
@@ -364,26 +363,8 @@ func (it *byteStrIter) next() tuple {
 	}
 	okv[0] = true
 	okv[1] = it.i
-	// concrete prefix decoding
-	if c, ok := it.b[it.i].(uint8); ok {
-		if c < utf8.RuneSelf {
-			okv[2] = rune(c)
-			it.i++
-			return okv
-		}
-		// multi-byte: need all concrete
-		var raw []byte
-		for j := it.i; j < len(it.b) && j < it.i+4; j++ {
-			cb, ok := it.b[j].(uint8)
-			if !ok {
-				break
-			}
-			raw = append(raw, cb)
-		}
-		r, n := utf8.DecodeRune(raw)
-		okv[2] = r
-		it.i += n
-		return okv
-	}
-	panic(unsupported{"range over string with symbolic byte (rune decoding)"})
+	r, n := it.fr.decodeRuneSym(it.b[it.i:])
+	okv[2] = r
+	it.i += n
+	return okv
 }
